@@ -337,7 +337,10 @@ FAKE_QUEUE_MODULE = types.SimpleNamespace(Queue=SQueue, Empty=_realqueue.Empty, 
 class SFuture(_RealFuture):
     def __init__(self):
         super().__init__()
-        self.fid = len(CTL.futures) + 1
+        # the harness names the future after the call it is about to submit (ids stay aligned with
+        # call numbers when an earlier session was cut short)
+        self.fid = getattr(CTL, "next_fid", None) or (max([f.fid for f in CTL.futures] + [0]) + 1)
+        CTL.next_fid = None
         CTL.futures.append(self)
 
     def cancel(self):
